@@ -403,6 +403,8 @@ impl<T: Samp> OutPort for POut<T> {
 }
 
 pub struct Built {
+    /// contents of a sink block's store, if it has one
+    pub sink_probe: Option<Box<dyn Fn() -> Vec<u64>>>,
     pub name: String,
     pub block: Box<dyn Block>,
     pub ins: Vec<Box<dyn InPort>>,
